@@ -427,6 +427,17 @@ pub fn ambiguity_programs() -> Vec<(String, String)> {
     out.push(("many-independent-errors".into(), many));
     out.push(("variant-and-struct-share-name".into(), "struct Point { v: int32 }\nenum Kind { Point(int32), Other }\nfn main() -> unit {\n    let p = Point { v: 1 };\n    let k = Point(2);\n    let _ = string_println(int32_to_string(p.v));\n    ()\n}\n".into()));
     out.push(("inherent-methods-same-name".into(), "struct A { v: int32 }\nstruct B { v: int32 }\nstruct C { v: int32 }\nimpl A { fn get(self: A) -> int32 { 1 } }\nimpl B { fn get(self: B) -> int32 { 2 } }\nimpl C { fn get(self: C) -> int32 { 3 } }\nfn pick(x: int32) -> int32 { let u = if x > 0 { mk_a() } else { mk_a() }; u.get() }\nfn mk_a() -> A { A { v: 0 } }\nfn main() -> unit {\n    let _ = string_println(int32_to_string(pick(1)));\n    ()\n}\n".into()));
+    // several Go packages bound through `extern "go"`, some of them unused (their imports are pruned from the Go
+    // text): the import block that is left must come out in one order (added after a seeded change that rebuilt it
+    // from a HashMap whenever something was pruned)
+    let externs = "extern \"go\" \"strings\" \"ToUpper\" to_upper(s: string) -> string\nextern \"go\" \"strings\" \"Repeat\" repeat(s: string, n: int32) -> string\nextern \"go\" \"os\" \"Getenv\" getenv(name: string) -> string\nextern \"go\" \"strconv\" \"Quote\" quote(s: string) -> string\nextern \"go\" \"path\" \"Base\" base(s: string) -> string\nextern \"go\" \"html\" \"EscapeString\" esc(s: string) -> string\nextern \"go\" \"sort\" \"SearchInts\" unused_search(n: int32) -> int32\n";
+    for (name, body) in [
+        ("extern-imports-one-pruned", "to_upper(\"a\") + quote(\"b\") + base(\"c/d\") + esc(\"<\") + repeat(\"x\", 2)"),
+        ("extern-imports-most-pruned", "quote(\"b\") + base(\"c/d\")"),
+        ("extern-imports-all-but-two-used", "to_upper(\"a\") + quote(\"b\") + base(\"c/d\") + esc(\"<\") + getenv(\"HOME\")"),
+    ] {
+        out.push((name.into(), format!("{}fn main() -> unit {{\n    let _ = string_println({});\n    ()\n}}\n", externs, body)));
+    }
     out.push(("missing-imports-and-packages".into(), "package Main\nimport Zeta\nimport Alpha\nimport Mid\n\nfn main() -> unit {\n    let _ = string_println(int32_to_string(Zeta::f(1) + Alpha::f(1) + Mid::f(1) + Nope::f(1)));\n    ()\n}\n".into()));
     out
 }
